@@ -6,7 +6,8 @@ merge.  Every rule below is a necessary condition: if it is broken, some program
 
 V1  if / && / || combine the results of the right children: push_mux(cond, then[i], else[i]); and(lhs, rhs); or(lhs, rhs)
 V2  tuple and struct access return value[offset .. offset + size of the field], offset = sum of the sizes of the fields before it
-V3  for-each binds array[i .. i + element size] and advances i by the element size on every path
+V3  for-each binds array[i .. i + element size], advances i by the element size on every path and runs once per element of the
+    array's type (not once per element-sized group of wires: elements may have no bits)
 V4  array / tuple / struct literals append the wires of every element, in order (struct literals in declaration order);
     repeat literals append the element `size` times
 V5  enum literals copy each field at a running offset behind the tag and advance the offset by the field's width
@@ -339,6 +340,8 @@ def rule_v3(ctx):
     for (r, p) in body.trace_operand(pt["args"][1], through={}):
         if r[0] == "call" and mir.last_seg(r[2] or "") == "index":
             sl = body.term(r[1])
+        elif r[0] == "call" and mir.last_seg(r[2] or "") == "get" and "as Some" in p:
+            sl = body.term(r[1])        # `let Some(binding) = array.get(i..i + size) else { break }`
     ec = C02.fn_of(ctx, C02.EXPR_COMPILE)["id"]
     if sl is None or not any(r[0] == "call" and r[2] == ec for (r, p) in body.trace_operand(sl["args"][0])):
         res.bad(Finding("V3", fid, "loop variable is not a slice of the lowered array", "the pattern is bound to something other than array[i..i+size]", pt["sp"]))
@@ -360,6 +363,30 @@ def rule_v3(ctx):
         res.bad(Finding("V3", fid, "element offset does not advance by the element size on every path", "an iteration can end without i += element size (blocks %s)" % (skip or odd), sl["sp"]))
     else:
         res.ok({"verdict": "binding = array[i .. i + elem]; i += elem on every path"})
+    # the number of iterations is the number of elements of the array's type: counting wires instead (`while i < array.len()`)
+    # never runs the body for elements without bits (`for _ in [(); 3] { c = c + x; }` left c unchanged)
+    def is_count(op):
+        return any(r[0] == "call" and mir.last_seg(r[2] or "") in ("unwrap_array_size", "expect", "unwrap") and r[1] in region and p[-1:] == ("1",) for (r, p) in body.deep_sources(op, 4))
+    bound_ok = False
+    wires_bound = None
+    for x in sorted(lp["body"]):
+        t = body.term(x)
+        if t and t["k"] == "call" and t["func"].get("declared") == "std::iter::Iterator::next" and is_count(t["args"][0]):
+            bound_ok = True
+        if t and t["k"] == "switch" and any(y not in lp["body"] for y in body.succs(x)) and t["discr"]["k"] in ("copy", "move"):
+            for (r, p) in body.trace(t["discr"]["place"], through={}):
+                if r[0] == "rv" and r[1] == "binop":
+                    rv = body.blocks[r[2]]["stmts"][r[3]]["rv"]
+                    if is_count(rv["l"]) or is_count(rv["r"]):
+                        bound_ok = True
+                    elif any(rr[0] == "call" and mir.last_seg(rr[2] or "") == "len" for side in ("l", "r") for (rr, pp) in body.deep_sources(rv[side], 3)):
+                        wires_bound = t
+    if bound_ok:
+        res.ok({"verdict": "one iteration per element of the array's type (the count of unwrap_array_size bounds the loop)"})
+    else:
+        res.bad(Finding("V3", fid, "the number of iterations is not the number of elements of the array's type",
+                        "the loop over the elements is bounded by %s, not by the element count of the array's type: for elements without bits (`[(); 3]`, an enum with one "
+                        "unit variant) the body never runs" % ("the number of wires" if wires_bound else "something else"), (wires_bound or pt)["sp"]))
     return res
 
 
